@@ -161,12 +161,22 @@ def run_case(desc):
         def mk_rs(off=0):
             return seed + off if desc["rs"] == "int" else np.random.RandomState(seed + off)
 
+        # one budget manager OBJECT that has been used before (a dry query_by_utility creates its fitted state) handed to
+        # every twin: each strategy must work on its own copy of it
+        shared_bm = None
+        if fam == "stream" and desc["bm"] and (desc["seed"] >> 7) % 3 == 0:
+            shared_bm = streams.make_bm(desc["bm"], budget, 20, seed + 1)
+            try:
+                shared_bm.query_by_utility(np.array([0.5]))
+            except Exception:
+                shared_bm = None
+
         def run():
             if fam == "bm":
                 obj = streams.make_bm(desc["name"], budget, 20, mk_rs())
                 clf = None
             else:
-                bm = streams.make_bm(desc["bm"], budget, 20, mk_rs(1)) if desc["bm"] else None
+                bm = shared_bm if shared_bm is not None else (streams.make_bm(desc["bm"], budget, 20, mk_rs(1)) if desc["bm"] else None)
                 obj = streams.make_strategy(desc["name"], None if bm is not None else budget, mk_rs(), bm=bm)
                 clf = streams.pwc_clf(gen.rng_for("c06clf", clf_seed), d) if desc["name"] in streams.NEEDS_FREQ else streams.stub_clf()
             hist = []
